@@ -420,13 +420,22 @@ def real_state(mol):
     return canon_state(nodes, edges, inters, sorted(mol.citations))
 
 
+def table_state(mol):
+    """interaction table (in order) and node attributes of a molecule, as plain data"""
+    inters = [(ty, tuple(i.atoms), list(i.parameters), dict(i.meta))
+              for ty, lst in mol.interactions.items() for i in lst]
+    return inters, {n: dict(simple_attrs(mol.nodes[n])) for n in mol.nodes}
+
+
 def run_links(mol):
     """DoLinks.run_molecule on `mol` (modified in place), recording per link the placements the
     code consumed and the placements on the molecule as it was when the link started"""
     used, snaps = [], []
+    run_links.states = states = []
     orig = do_links.match_link
 
     def wrapper(molecule, link):
+        states.append(table_state(molecule))
         snap_mol = clone(molecule)
         try:
             snaps.append(list(orig(snap_mol, link)))
@@ -624,6 +633,97 @@ def apply_oracle(before, after, links, snaps, used, positions):
     return errs
 
 
+def o_template_matches(entry, attrs_options, atoms, params, atom_attrs, meta):
+    """documented semantics of a removal template: same atoms in the same order; the parameters if the
+    template gives any; the template's per-atom attributes; the template's meta (version, ...) """
+    ty, e_atoms, e_params, e_meta = entry
+    if tuple(e_atoms) != tuple(atoms):
+        return False
+    if params and not (len(params) == len(e_params) and all(close(x, y) if not isinstance(x, str) and not isinstance(y, str)
+                                                             else x == y for x, y in zip(params, e_params))):
+        return False
+    if not o_attrs_ok(e_meta, meta):
+        return False
+    return [all(o_attrs_ok(attrs.get(a, {}), ta) for a, ta in zip(e_atoms, atom_attrs)) for attrs in attrs_options]
+
+
+def removal_oracle(states, links, used, positions):
+    """'its removals have taken effect' and 'nothing else is removed', link by link, on the tables the
+    real code had when each link started (states[i]) and after it (states[i+1])"""
+    errs = []
+    for li, link in enumerate(links):
+        if li + 1 >= len(states) or li >= len(used):
+            break
+        (t0, a0), (t1, a1) = states[li], states[li + 1]
+        gone_nodes = set(a0) - set(a1)
+        has_replace = any('replace' in a for a in link.nodes.values())
+        # instances of the link's removal templates and additions on the placements used
+        rems, adds = [], []
+        for pl in used[li]:
+            for ty, lst in link.removed_interactions.items():
+                for d in lst:
+                    aa = list(getattr(d, 'atom_attrs', None) or [{} for _ in d.atoms])
+                    rems.append((ty, tuple(pl[a] for a in d.atoms), eval_params(d.parameters, positions, pl), aa, dict(d.meta)))
+            for ty, lst in link.interactions.items():
+                for i in lst:
+                    adds.append((ty, tuple(pl[a] for a in i.atoms), i.meta.get('version', 0)))
+
+        def matches(entry, r, strict):
+            """strict: with the attributes the atoms certainly had (no replace in this link, or no per-atom
+            condition); otherwise either the attributes before or after the link may have been seen"""
+            if entry[0] != r[0]:
+                return False
+            res = o_template_matches(entry, [a0, a1], r[1], r[2], r[3], r[4])
+            if res is False:
+                return False
+            return all(res) if strict else any(res)
+        cnt1 = {}
+        for e in t1:
+            cnt1[repr(e)] = cnt1.get(repr(e), 0) + 1
+        cnt0 = {}
+        for e in t0:
+            cnt0[repr(e)] = cnt0.get(repr(e), 0) + 1
+        # (a) an interaction that disappeared is explained by a removed atom, by a template that matches
+        #     it, or by an addition of the same identity (replacement)
+        for e in t0:
+            if cnt1.get(repr(e), 0) >= cnt0[repr(e)]:
+                continue
+            if set(e[1]) & gone_nodes:
+                continue
+            if any(ad == (e[0], tuple(e[1]), e[3].get('version', 0)) for ad in adds):
+                continue
+            if any(matches(e, r, False) for r in rems):
+                continue
+            errs.append('link %d: interaction %s %s %s %s disappeared although no removal template of the link '
+                        'matches it (templates on these atoms: %s)'
+                        % (li, e[0], e[1], e[2], e[3], [(r[2], r[4]) for r in rems if r[0] == e[0] and r[1] == tuple(e[1])]))
+        # (b) the first interaction matching a template is gone (where no other event of the link touches
+        #     the same atoms, so that the outcome is unambiguous)
+        for r in rems:
+            same = [x for x in rems if x[0] == r[0] and x[1] == r[1]]
+            if len(same) > 1 or any(ad[0] == r[0] and ad[1] == r[1] for ad in adds):
+                continue
+            if has_replace and any(r[3]):
+                continue
+            m = [e for e in t0 if matches(e, r, True)]
+            if not m:
+                continue
+            first = m[0]
+            if set(first[1]) & gone_nodes:
+                continue
+            chk.count('removal_template_matched')
+            if 'version' in r[4] and any(e[0] == r[0] and tuple(e[1]) == r[1] and e not in m for e in t0):
+                chk.count('removal_version_specific_among_other_versions')
+            if cnt1.get(repr(first), 0) != cnt0[repr(first)] - 1:
+                errs.append('link %d: removal template %s %s %s %s matches %s %s %s, which is still there afterwards'
+                            % (li, r[0], r[1], r[2], r[4], first[0], first[2], first[3]))
+            for e in m[1:]:
+                if repr(e) != repr(first) and cnt1.get(repr(e), 0) != cnt0[repr(e)] and not set(e[1]) & gone_nodes:
+                    errs.append('link %d: removal template %s %s removed %s %s instead of the first match %s %s'
+                                % (li, r[0], r[1], e[2], e[3], first[2], first[3]))
+    return errs
+
+
 # ----------------------------------------------------------------------------
 # generators
 # ----------------------------------------------------------------------------
@@ -716,13 +816,19 @@ def add_initial_interactions(rng, mol):
             meta = rng.choice([{}, {}, {'group': 'g'}, {'version': 1}, {'version': 0}])
             atoms = (u, v) if rng.random() < 0.8 else (v, u)
             mol.add_interaction('bonds', atoms, [rng.choice(['1', '2']), rng.choice(['0.35', '0.47']), '1250'], dict(meta))
-            if rng.random() < 0.15:
-                mol.add_interaction('bonds', atoms, ['1', '0.1', '9'], {'version': rng.choice([1, 2])})
+            if rng.random() < 0.4:
+                for ver in rng.sample([1, 2, 3], rng.choice([1, 1, 2])):
+                    if ver != meta.get('version', 0):
+                        mol.add_interaction('bonds', atoms, [rng.choice(['1', '2']), rng.choice(['0.1', '0.35']), '9'],
+                                            {'version': ver})
     for n in list(mol.nodes):
         nb = list(mol[n])
         if len(nb) >= 2 and rng.random() < 0.4:
             a, c = rng.sample(nb, 2)
-            mol.add_interaction('angles', (a, n, c), ['2', '100', '25'], {})
+            vers = rng.choice([[None], [None], [None, 2], [1, 2], [2, 1, None]])
+            for ver in vers:
+                mol.add_interaction('angles', (a, n, c), ['2', rng.choice(['100', '120']), '25'],
+                                    {} if ver is None else {'version': ver})
 
 
 def gen_tvalue(rng, have, vocab):
@@ -892,19 +998,80 @@ def gen_link(rng, mol, ninter=None):
         if rng.random() < 0.4:
             meta['group'] = rng.choice(['a', 'b'])
         link.interactions.setdefault(ty, []).append(Interaction(atoms=atoms, parameters=params, meta=meta))
-    if rng.random() < 0.35:
+    if rng.random() < 0.45:
+        ledges = list(link.edges)
         for _ in range(rng.choice([1, 1, 2])):
-            atoms = tuple(rng.sample(names, min(2, k)))
-            ty = 'bonds' if len(atoms) == 2 else 'restraints'
+            centers = [n for n in names if link.degree(n) >= 2]
+            if centers and rng.random() < 0.35:
+                c = rng.choice(centers)
+                a, b = rng.sample(list(link[c]), 2)
+                atoms = (a, c, b)
+            elif ledges and rng.random() < 0.8:
+                atoms = tuple(rng.choice(ledges))
+                if derived and rng.random() < 0.8:
+                    # the orientation the bond has on the molecule the link was derived from
+                    u, v = (picked[names.index(x)] for x in atoms)
+                    if (u, v) not in [tuple(e) for e in mol.edges]:
+                        atoms = atoms[::-1]
+                elif rng.random() < 0.5:
+                    atoms = atoms[::-1]
+            else:
+                atoms = tuple(rng.sample(names, min(2, k)))
+            ty = {1: 'restraints', 2: 'bonds', 3: 'angles'}[len(atoms)]
             aa = [{} for _ in atoms]
             if rng.random() < 0.2:
                 aa[0] = {'atomname': rng.choice(ATOMNAMES)}
-            params = [] if rng.random() < 0.6 else [rng.choice(['1', '2']), rng.choice(['0.35', '0.47']), '1250']
-            meta = rng.choice([{}, {}, {}, {'version': 1}, {'group': 'g'}])
+            if rng.random() < 0.6:
+                params = []
+            elif ty == 'angles':
+                params = ['2', rng.choice(['100', '120']), '25']
+            else:
+                params = [rng.choice(['1', '2']), rng.choice(['0.35', '0.47', '0.1']), rng.choice(['1250', '9'])]
+            meta = rng.choice([{}, {}, {'version': 1}, {'version': 2}, {'version': 0}, {'version': 3}, {'group': 'g'},
+                               {'version': Choice([1, 2])}, {'version': NotDefinedOrNot(1)}])
             link.removed_interactions.setdefault(ty, []).append(
                 DeleteInteraction(atoms=atoms, atom_attrs=aa, parameters=params, meta=meta))
     if rng.random() < 0.2:
         link.citations = set(rng.sample(['ref1', 'ref2', 'ref3'], rng.randint(1, 2)))
+    return link
+
+
+def gen_removal_link(rng, mol):
+    """a link aimed at an interaction the molecule has: its atoms with their names and relative residue
+    numbers, and a removal template that is or is not specific about version / parameters"""
+    pool = [(ty, i) for ty, lst in mol.interactions.items() for i in lst]
+    if not pool:
+        return None
+    ty, inter = rng.choice(pool)
+    atoms = list(inter.atoms)
+    if len(set(atoms)) != len(atoms):
+        return None
+    link = Link()
+    ref = mol.nodes[atoms[0]]['resid']
+    names = []
+    for a in atoms:
+        d = mol.nodes[a]['resid'] - ref
+        nm = ('+' * d if d > 0 else '-' * -d) + mol.nodes[a]['atomname']
+        while nm in names:
+            nm += "'"
+        names.append(nm)
+        link.add_node(nm, atomname=mol.nodes[a]['atomname'], order=d)
+    for i, j in itertools.combinations(range(len(atoms)), 2):
+        if mol.has_edge(atoms[i], atoms[j]):
+            link.add_edge(names[i], names[j])
+    for _ in range(rng.choice([1, 1, 2])):
+        ver = inter.meta.get('version', 0)
+        meta = rng.choice([{}, {'version': ver}, {'version': ver}, {'version': rng.choice([0, 1, 2, 3])},
+                           {'version': Choice([1, 2])}, {'version': NotDefinedOrNot(ver)}, {'group': 'g'}])
+        params = rng.choice([[], [], list(inter.parameters), ['2', '120', '25'], ['1', '0.1', '9']])
+        aa = [{} for _ in atoms]
+        if rng.random() < 0.15:
+            aa[-1] = {'atomname': rng.choice(ATOMNAMES)}
+        link.removed_interactions.setdefault(ty, []).append(
+            DeleteInteraction(atoms=tuple(names), atom_attrs=aa, parameters=params, meta=meta))
+    if rng.random() < 0.3:
+        link.interactions[ty] = [Interaction(atoms=tuple(names), parameters=['9', '9'],
+                                             meta=rng.choice([{}, {'version': 1}, {'version': 2}]))]
     return link
 
 
@@ -1057,10 +1224,11 @@ def apply_case(cid, mol, links, lines, pending):
     run_ff.links = links
     work = clone(mol, run_ff)
     err, used, snaps = run_links(work)
+    states = list(run_links.states) + [table_state(work)]
     given = [canon_placements_in_order(u, names) for u, (_, names) in zip(used, els)]
     given += [[] for _ in range(len(links) - len(given))]
     lines.append(line('apply', nodes, edges, meta, inters, cites, [e for e, _ in els], given))
-    pending.append((cid, before, work, links, err, used, snaps, positions))
+    pending.append((cid, before, work, links, err, used, snaps, positions, states))
 
 
 def canon_placements_in_order(placements, names):
@@ -1069,7 +1237,7 @@ def canon_placements_in_order(placements, names):
 
 def finish_apply_cases(lines, pending):
     models = chk.drv.ask(lines) if chk.lean_ok else [None] * len(lines)
-    for ln, mo, (cid, before, after, links, err, used, snaps, positions) in zip(lines, models, pending):
+    for ln, mo, (cid, before, after, links, err, used, snaps, positions, states) in zip(lines, models, pending):
         errs, finding = [], None
         interfering = any(s is not None and sorted(map(lambda p: sorted(p.items(), key=str), s)) !=
                           sorted(map(lambda p: sorted(p.items(), key=str), u))
@@ -1082,6 +1250,7 @@ def finish_apply_cases(lines, pending):
             impl_state = real_state(after)
             impl = show(impl_state)
             errs = apply_oracle(before, after, links, snaps, used, positions)
+            errs += removal_oracle(states, links, used, positions)
         mstate = model_state(mo, positions) if mo is not None else None
         if mstate is None:
             mo_c = None
@@ -1192,6 +1361,15 @@ def corpus_cases():
                  ('+BB', {'atomname': 'BB', 'atype': 'P', 'order': o})], [('BB', '+BB')])
         l4.interactions['bonds'] = [Interaction(atoms=('BB', '+BB'), parameters=['1'], meta={})]
         out.append(('a', chain([1, 2, 3, 4]), [l4]))
+    mol = chain([1, 2, 3])
+    mol.add_interaction('angles', (0, 1, 2), ['2', '100', '25'], {'version': 1})
+    mol.add_interaction('angles', (0, 1, 2), ['2', '120', '25'], {'version': 2})
+    mol.add_interaction('angles', (0, 1, 2), ['2', '130', '25'], {})
+    for tm in ({'version': 2}, {}, {'version': 0}, {'version': 7}):
+        l7 = mk([('-BB', {'atomname': 'BB', 'order': -1}), ('BB', {'atomname': 'BB', 'order': 0}), ('+BB', {'atomname': 'BB', 'order': 1})],
+                [('-BB', 'BB'), ('BB', '+BB')])
+        l7.removed_interactions['angles'] = [DeleteInteraction(atoms=('-BB', 'BB', '+BB'), atom_attrs=[{}, {}, {}], parameters=[], meta=tm)]
+        out.append(('a', mol, [l7]))
     # links written as force-field text and read by read_ff (prefixes, patterns, non-edges, !-sections,
     # #meta, versions, effectors, replace, molmeta): how links really look
     from vermouth.ffinput import read_ff
@@ -1310,6 +1488,11 @@ def link_stream():
         for _ in range(rng.choice([1, 2, 2, 3, 4])):
             l = gen_link(rng, mol, ninter=rng.choice([1, 1, 2, 3]))
             links.append(l)
+        if rng.random() < 0.45:
+            for _ in range(rng.choice([1, 1, 2])):
+                l = gen_removal_link(rng, mol)
+                if l is not None:
+                    links.insert(rng.randint(0, len(links)), l)
         if links and rng.random() < 0.3:
             links.append(copy.deepcopy(rng.choice(links)))     # the same link again: everything is replaced
         if not links:
